@@ -6,13 +6,13 @@ MEMSHIM = ("double-free", "bad-layout", "bad-free", "bad-realloc", "canary", "us
            "realloc-after-free", "write-after-free", "leak", "shared-write")
 
 FATAL = {
-    "C01": {"always": ("TextOK", "ResultOK"), "must_exercise": ("InlineEdit", "Growth")},
+    "C01": {"always": ("TextOK", "ResultOK", "Abort"), "must_exercise": ("InlineEdit", "Growth")},
     "C02": {"always": ("Isolation", "StaticsOK"), "shim": ("shared-write",), "must_exercise": ("Isolation",)},
-    "C03": {"always": ("RcOK", "BlocksOK", "NoResizeShared", "EndClean"), "shim": MEMSHIM, "must_exercise": ("NoResizeShared",)},
+    "C03": {"always": ("RcOK", "BlocksOK", "NoResizeShared", "EndClean", "Abort"), "shim": MEMSHIM, "must_exercise": ("NoResizeShared",)},
     # the accounting predicates count against C05 from the step at which an allocation was refused on
-    "C05": {"always": ("FailAtomic",), "when": {"inj": ("RcOK", "BlocksOK", "EndClean", "TextOK", "Isolation", "Utf8OK", "ResultOK")},
+    "C05": {"always": ("FailAtomic",), "when": {"inj": ("RcOK", "BlocksOK", "EndClean", "TextOK", "Isolation", "Utf8OK", "ResultOK", "Abort")},
             "shim": MEMSHIM, "shim_when": "inj", "must_exercise": ("FailAtomic",)},
-    "C06": {"always": ("SizeSafe",), "when": {"size": ("RcOK", "BlocksOK", "EndClean", "TextOK", "Isolation", "Utf8OK", "CapOK", "WithCap", "ReservePost", "ResultOK")},
+    "C06": {"always": ("SizeSafe",), "when": {"size": ("RcOK", "BlocksOK", "EndClean", "TextOK", "Isolation", "Utf8OK", "CapOK", "WithCap", "ReservePost", "ResultOK", "Abort")},
             "shim": MEMSHIM, "shim_when": "size", "must_exercise": ("SizeSafe",)},
     "C07": {"always": ("RejectedIsNoop", "Utf8OK", "ResultOK.index"), "must_exercise": ("RejectedIsNoop",)},
     "C08": {"always": ("CloneCheap",), "must_exercise": ("CloneCheap",)},
@@ -21,7 +21,7 @@ FATAL = {
     "C11": {"always": ("CapOK", "WithCap", "ReservePost", "NoReallocInCap"), "must_exercise": ("WithCap", "ReservePost", "NoReallocInCap")},
     "C12": {"always": ("Growth",), "must_exercise": ("Growth",)},
     "C13": {"always": ("ShrinkPost",), "must_exercise": ("ShrinkPost",)},
-    "C18": {"always": ("CallbackPanicOK",), "when": {"cbpanic": ("RcOK", "BlocksOK", "EndClean", "TextOK", "Isolation")},
+    "C18": {"always": ("CallbackPanicOK",), "when": {"cbpanic": ("RcOK", "BlocksOK", "EndClean", "TextOK", "Isolation", "Abort")},
             "shim": MEMSHIM, "shim_when": "cbpanic", "must_exercise": ("CallbackPanicOK",)},
 }
 
@@ -48,7 +48,7 @@ def dt(mode): return drive("t-" + mode, 40, 250, mode, 16)     # ~160 k records
 
 PROFILES = {
     "C01": {"quick": [CORE4, SEED2, dq("mixed")], "thorough": [CORE4, SEED2, dt("mixed"), dt("all")]},
-    "C02": {"quick": [CORE3, SEED2, dq("mixed")], "thorough": [CORE4, SEED2, dt("mixed")]},
+    "C02": {"quick": [CORE3, SEED2, FAIL2, SIZES2, dq("all")], "thorough": [CORE4, SEED2, FAIL2, SIZES2, dt("all")]},
     "C03": {"quick": [CORE3, SEED2, FAIL2, dq("all")], "thorough": [CORE4, SEED2, FAIL2, SIZES2, dt("all")]},
     "C05": {"quick": [FAIL2, dq("fail")], "thorough": [FAIL2, dt("fail")]},
     "C06": {"quick": [SIZES2, dq("sizes")], "thorough": [SIZES2, dt("sizes")]},
